@@ -121,17 +121,17 @@ let () = register "bm_ops" (fun a ->
       if !exp_full then out_str (string_of_int !step ^ "e") (intervals ex lim);
       if !iter_full then begin
         let acc = ref [] and cnt = ref 0 in
-        let it = ref iter_init in
+        let it = ref bm_iter_init in
         let go = ref true in
         while !go && !cnt < xcap do
-          let (it', f) = iter_next vb !it in
+          let (it', f) = bm_iter_next vb !it in
           it := it';
-          if f && it_has it' then begin acc := int_of_n (it_cur it') :: !acc; incr cnt end
+          if f && bm_it_has it' then begin acc := int_of_n (bm_it_cur it') :: !acc; incr cnt end
           else go := false
         done;
         let arr = Array.of_list (List.rev !acc) in
         out_str (string_of_int !step ^ "t")
-          (intervals arr (Array.length arr) ^ (if it_has !it then "/h1" else "/h0"))
+          (intervals arr (Array.length arr) ^ (if bm_it_has !it then "/h1" else "/h0"))
       end;
       incr step
     end) (split_on ',' ops))
